@@ -493,3 +493,60 @@ Fixpoint valid (o : opts) (t : td) : bool :=
 (* a root NonTensorData is loaded with batch size [] *)
 Definition valid_root (o : opts) (t : td) : bool :=
   valid o t && negb (like o) && match t with Leaf _ => false | NData bs _ => match bs with [] => true | _ => false end | _ => true end.
+
+(* ------------------------------------------------------------------ make_memmap / make_memmap_from_tensor / make_memmap_from_storage
+   (_td.py: _make_memmap_subtd and the make_memmap family): a new tensor entry is added to a saved tensordict under a (nested) key;
+   the metadata file of the node that receives it is READ from disk, extended and written back; missing intermediate
+   nodes are created as empty tensordicts, saved in their own directory and registered in their parent's metadata by
+   the same read-modify-write.  The three entry points differ in where the bytes come from (fresh zeros the caller then
+   fills, a tensor, a storage that already is the file); the model writes the final cells.
+   State: the tensordict in memory (whose keys decide "already exists") and the directory. *)
+Definition resave_meta (bs : list nat) (m : list (string * json)) : json :=
+  JObj (jset "_type" (JStr "TensorDict") (jset "device" (JStr "cpu") (jset "shape" (jshape bs) m))).
+
+Definition load_meta (files : list (fname * content)) : res (list (string * json)) :=
+  match fget FMeta files with
+  | Some (CJson (JObj m)) => Ok m
+  | Some _ => Raised EOther
+  | None => Raised EFileNotFound
+  end.
+
+Fixpoint grow_at (ks : list string) (k : string) (l : leaf) (t : td) (d : dir) {struct ks} : res (td * dir) :=
+  match t, d with
+  | Node bs ents, Dir files subs =>
+      match ks with
+      | [] =>
+          if smem k ents then Raised ERuntime        (* "The key ... already exists within the target tensordict" *)
+          else
+            bind (load_meta files) (fun m =>
+              let files1 := if Nat.eqb (numel (lshape l)) 0 then files else fset (FLeaf k) (CCells (ldtype l) (lcells l)) files in
+              Ok (Node bs (ents ++ [(k, Leaf l)]),
+                  Dir (fset FMeta (CJson (resave_meta bs (jset k (leaf_record l) m))) files1) subs))
+      | k0 :: rest =>
+          match sget k0 ents with
+          | Some (Node bs0 ents0) =>
+              bind (grow_at rest k l (Node bs0 ents0) (sub_dir k0 subs)) (fun td' =>
+                Ok (Node bs (jset k0 (fst td') ents), Dir files (jset k0 (snd td') subs)))
+          | Some _ => Raised EOther
+          | None =>
+              let sub0 := Node bs [] in
+              bind (save_over default_opts sub0 (sub_dir k0 subs)) (fun d0 =>
+              bind (load_meta files) (fun m =>
+              let files' := fset FMeta (CJson (resave_meta bs (jset k0 (coll_record sub0) m))) files in
+              bind (grow_at rest k l sub0 d0) (fun td' =>
+                Ok (Node bs (ents ++ [(k0, fst td')]), Dir files' (jset k0 (snd td') subs)))))
+          end
+      end
+  | _, _ => Raised EOther
+  end.
+
+Record grow_op := { gpath : list string; gkey : string; gleaf : leaf }.
+Fixpoint grow_all (ops : list grow_op) (t : td) (d : dir) : list (res unit) * (td * dir) :=
+  match ops with
+  | [] => ([], (t, d))
+  | o :: r =>
+      match grow_at (gpath o) (gkey o) (gleaf o) t d with
+      | Ok td' => let rr := grow_all r (fst td') (snd td') in (Ok tt :: fst rr, snd rr)
+      | Raised e => let rr := grow_all r t d in (Raised e :: fst rr, snd rr)     (* a refused call changes nothing *)
+      end
+  end.
